@@ -173,6 +173,8 @@ inductive CasmErr
   | notSierra         -- … or the definition is not a Sierra class
   | metaMissing       -- protocol ≥ 0.14.1: a migrated class has no metadata in the database
   | migrate (e : MigrateErr)
+  | compiledHash      -- protocol < 0.14.1: the V2 hash of a declared class's compiled class cannot be computed
+                      -- (`ClassDef.compiledBad`): a PANIC as the code is, an error with the repair
 deriving DecidableEq, Repr, Inhabited
 
 inductive RejectS
@@ -244,7 +246,8 @@ def termNat : Term → Nat
   | _ => 0
 
 /-- `storeCasmHashMetadataV1` (protocol < 0.14.1). `v2of c` is the Blake2s hash juno computes from
-the compiled class of `c`'s definition (`sierraClass.Compiled.Hash(HashVersionV2)`, a black box). -/
+the compiled class of `c`'s definition (`sierraClass.Compiled.Hash(HashVersionV2)`, a black box) — when that
+computation returns; when it does not (`compiledBad`) the step ends with `compiledHash`. -/
 def casmV1 (number : UInt64) (v2of : Nat → Nat) (classes : Classes) : FMap → Except CasmErr IBatch
   | [] => .ok []
   | (c, casm) :: rest =>
@@ -252,6 +255,7 @@ def casmV1 (number : UInt64) (v2of : Nat → Nat) (classes : Classes) : FMap →
     | none => .error .classMissing
     | some kc =>
       if kc.2.cairo0 then .error .notSierra
+      else if kc.2.compiledBad then .error .compiledHash
       else match casmV1 number v2of classes rest with
         | .error e => .error e
         | .ok ws => .ok ((.casmMeta c, some (.casm (CasmMeta.newV1 number (termNat casm) (v2of c)))) :: ws)
@@ -337,7 +341,10 @@ def casmErrorsWith (checked : Bool) (db : IDB) (h : Header) (d : StateDiff) (cla
         match db.get (.casmMeta kc.1) with
         | some (.casm m) => (match m.migrate h.number with | .error e => some (.migrate e) | .ok _ => none)
         | _ => some .metaMissing)
-    else defErrs
+    else defErrs ++ d.declaredV1.filterMap (fun kc =>
+      match classes.find? (fun x => x.1 == kc.1) with
+      | some x => if !x.2.cairo0 && x.2.compiledBad then some .compiledHash else none
+      | none => none)
 
 /-- what `writeBlockContent` appends to the batch, in the order of the code; `commitId` stands for the
 `BlockCommitments` argument -/
